@@ -63,25 +63,22 @@ class Python(object):
         self.watch_stderr = Thread.run(f"watching stderr for {name}", self._watch_stderr)
 
     def _execute(self, command):
-        while True:
-            self.done.wait()
-            with self.lock:
-                if self.done:
-                    self.done = Signal()
-                    break
-
-        self.response = None
-        self.error = None
-        self.process.stdin.add(value2json(command), force=True)
-        self.done.wait()
-        try:
-            if self.error:
-                logger.error("problem with process call", cause=Except(**self.error))
-            else:
-                return self.response
-        finally:
+        with self.lock:
+            # ONE REQUEST AT A TIME: THE WORKER ANSWERS IN ORDER, AND response/error ARE SHARED WITH THE READER
+            self.done = done = Signal()
             self.response = None
             self.error = None
+            try:
+                self.process.stdin.add(value2json(command), force=True)
+                done.wait()
+                if self.error:
+                    logger.error("problem with process call", cause=Except(**self.error))
+                else:
+                    return self.response
+            finally:
+                self.done = DONE
+                self.response = None
+                self.error = None
 
     def _watch_stdout(self, please_stop):
         while not please_stop:
